@@ -30,7 +30,7 @@ theorem content_expect (pol : Nat) (guids : List Bytes) (r : Row) :
     rw [Entry.ser_eq]
     exact drop_append_len _ _ _ (hdr_length _ _ _)
 
-theorem nestedOf_expect (pol : Nat) (guids : List Bytes) (r : Row) (hok : r.entry.ok guids.length = true) :
+theorem nestedOf_expect (pol : Nat) (guids : List Bytes) (r : Row) (hpl : r.entry.plain = true) :
     nestedOf pol (expectNVar pol guids r) = none := by
   unfold nestedOf
   rw [content_expect]
@@ -38,15 +38,12 @@ theorem nestedOf_expect (pol : Nat) (guids : List Bytes) (r : Row) (hok : r.entr
   cases e with
   | dead a nx b => simp [expectNVar]
   | var f g n v x nx =>
-    simp only [Entry.ok, Bool.and_eq_true] at hok
-    have := hok.1.2
-    simp only [sig_eq] at this
-    simp only [bne_iff_ne, ne_eq] at this
+    have := hpl
+    simp only [Entry.plain, sig_eq, bne_iff_ne, ne_eq] at this
     simp [this]
   | data f v x nx =>
-    simp only [Entry.ok, Bool.and_eq_true] at hok
-    have := hok.1.2
-    simp only [sig_eq, bne_iff_ne, ne_eq] at this
+    have := hpl
+    simp only [Entry.plain, sig_eq, bne_iff_ne, ne_eq] at this
     simp [this]
 
 theorem polNext (pol : Nat) (hpol : pol = 0xFF ∨ pol = 0) : pol + 256 * pol + 65536 * pol = nextVal pol none := by
@@ -92,7 +89,7 @@ theorem asmNVar_expect (pol : Nat) (hpol : pol = 0xFF ∨ pol = 0) (guids : List
     | some hh =>
       have hok' := hok
       simp only [Entry.ok, Bool.and_eq_true, decide_eq_true_eq] at hok'
-      obtain ⟨⟨hsz, _⟩, ⟨hf, hx⟩, hnx⟩ := hok'
+      obtain ⟨hsz, ⟨hf, hx⟩, hnx⟩ := hok'
       obtain ⟨ha, hbv, hbd, hbx, hba⟩ := data_bits f v x nx hf
       apply asmNVar_check pol _ _ [] hv
       · simp [guidNamePart, expectNVar, hbd]
@@ -112,7 +109,7 @@ theorem asmNVar_expect (pol : Nat) (hpol : pol = 0xFF ∨ pol = 0) (guids : List
   | var f g n v x nx =>
     have hok' := hok
     simp only [Entry.ok, Bool.and_eq_true, decide_eq_true_eq] at hok'
-    obtain ⟨⟨hsz, _⟩, ⟨⟨⟨⟨hf, hg⟩, hn⟩, hx⟩, hnx⟩⟩ := hok'
+    obtain ⟨hsz, ⟨⟨⟨⟨hf, hg⟩, hn⟩, hx⟩, hnx⟩⟩ := hok'
     obtain ⟨ha, hbv, hbd, hbn, hbg, hbx, hba⟩ := var_bits f g n v x nx hf
     have hnb := nameBytes_ser _ n hbn hn
     apply asmNVar_check pol _ _ (g.ser ++ n.ser) hv
@@ -135,18 +132,40 @@ theorem asmNVar_expect (pol : Nat) (hpol : pol = 0xFF ∨ pol = 0) (guids : List
     · simpa [expectNVar] using hsz
     · simp [expectNVar, Entry.ser_eq, Entry.body, Entry.content]
 
-theorem asmEntries_expect (pol : Nat) (hpol : pol = 0xFF ∨ pol = 0) (guids : List Bytes)
-    (rec : Store → Except Err Store) (rows : List Row) (hok : ∀ r ∈ rows, r.entry.ok guids.length = true) :
+/-- what the recursive call of the Assemble visitor must deliver for the entries that carry a
+    nested store: success, and a buffer equal to the entry's content -/
+def NestAsmOk (pol : Nat) (rec : Store → Except Err Store) (v : NVar) : Prop :=
+  ∀ ns, nestedOf pol v = some ns → ∃ r, rec ns = .ok r ∧ r.buf = content v
+
+theorem asmEntries_expect_gen (pol : Nat) (hpol : pol = 0xFF ∨ pol = 0) (guids : List Bytes)
+    (rec : Store → Except Err Store) (rows : List Row) (hok : ∀ r ∈ rows, r.entry.ok guids.length = true)
+    (hn : ∀ r ∈ rows, NestAsmOk pol rec (expectNVar pol guids r)) :
     asmEntries pol rec (rows.map (expectNVar pol guids)) = .ok (rows.map (expectNVar pol guids)) := by
   induction rows with
   | nil => rfl
   | cons r rows ih =>
     have hr := hok r (by simp)
-    simp only [List.map_cons, asmEntries, nestedOf_expect pol guids r hr,
-      ih (fun r' hr' => hok r' (by simp [hr']))]
-    cases hv : (expectNVar pol guids r).type.isValid with
-    | true => simp [asmNVar_expect pol hpol guids r hr hv]
-    | false => simp
+    have hnr := hn r (by simp)
+    simp only [List.map_cons, asmEntries, ih (fun r' hr' => hok r' (by simp [hr'])) (fun r' hr' => hn r' (by simp [hr']))]
+    cases hns : nestedOf pol (expectNVar pol guids r) with
+    | none =>
+      simp only
+      cases hv : (expectNVar pol guids r).type.isValid with
+      | true => simp [asmNVar_expect pol hpol guids r hr hv]
+      | false => simp
+    | some ns =>
+      obtain ⟨r', hr1, hr2⟩ := hnr ns hns
+      simp only [hr1, hr2]
+      cases hv : (expectNVar pol guids r).type.isValid with
+      | true => simp [asmNVar_expect pol hpol guids r hr hv]
+      | false => simp
+
+theorem asmEntries_expect (pol : Nat) (hpol : pol = 0xFF ∨ pol = 0) (guids : List Bytes)
+    (rec : Store → Except Err Store) (rows : List Row) (hok : ∀ r ∈ rows, r.entry.ok guids.length = true)
+    (hpl : ∀ r ∈ rows, r.entry.plain = true) :
+    asmEntries pol rec (rows.map (expectNVar pol guids)) = .ok (rows.map (expectNVar pol guids)) :=
+  asmEntries_expect_gen pol hpol guids rec rows hok (fun r hr ns hns => by
+    rw [nestedOf_expect pol guids r (hpl r hr)] at hns; cases hns)
 
 theorem owners_entries (done : List Row) (es : List Entry) (off : Nat) :
     (owners done es off).map (·.entry) = done.map (·.entry) ++ es := by
@@ -173,11 +192,32 @@ theorem expect_bufs (s : NvStore) :
   | nil => rfl
   | cons r t ih => simp only [List.map_cons, List.flatMap_cons, expect_buf, ih]
 
-/-- assembling the parsed form of a well-formed store changes nothing -/
-theorem asmStoreWith_expect (s : NvStore) (hwf : WF s) (rec : Store → Except Err Store) :
-    asmStoreWith s.pol rec (expectStore s) = .ok (expectStore s) := by
-  have hp := wf_parts s hwf
+/-- the store-level part of the Assemble visitor on the parsed entries of a well-formed store:
+    entries, erased gap, reversed GUID table — the serialized store again.  `st` is any in-memory
+    store with the right length and GUID table (the parsed store itself, or the store compaction
+    hands over). -/
+theorem layout_expect (s : NvStore) (hp : WFParts s) (st : Store) (hg : st.guidStore = s.guids)
+    (hl : st.length = s.ser.length) : layout s.pol st (expectStore s).entries = .ok (expectStore s) := by
   have hL := ser_length s hp
+  have he : (expectStore s).entries = (table s).map (expectNVar s.pol s.guids) := rfl
+  rw [he]
+  simp only [layout, expect_bufs, entriesLen_ser, hg, hl]
+  have h1 : ¬ (s.ser.length < 16 * s.guids.length) := by omega
+  have h1' : ¬ (s.ser.length - 16 * s.guids.length < entriesLen s.entries) := by omega
+  simp only [h1, h1', if_false]
+  have h2 : s.ser.length - 16 * s.guids.length = entriesLen s.entries + s.free := by omega
+  have h3 : entriesLen s.entries + s.free - entriesLen s.entries = s.free := by omega
+  simp only [h2, h3]
+  cases st
+  simp only at hg hl
+  subst hg hl
+  simp [expectStore, NvStore.ser]
+
+/-- assembling the parsed form of a well-formed store changes nothing, provided the recursive calls
+    on the nested stores do their job -/
+theorem asmStoreWith_expect_gen (s : NvStore) (hp : WFParts s) (rec : Store → Except Err Store)
+    (hn : ∀ r ∈ table s, NestAsmOk s.pol rec (expectNVar s.pol s.guids r)) :
+    asmStoreWith s.pol rec (expectStore s) = .ok (expectStore s) := by
   unfold asmStoreWith
   have hrows : ∀ r ∈ table s, r.entry.ok s.guids.length = true := by
     intro r hr
@@ -185,18 +225,18 @@ theorem asmStoreWith_expect (s : NvStore) (hwf : WF s) (rec : Store → Except E
     rw [← table_entries s]
     exact List.mem_map_of_mem hr
   have he : (expectStore s).entries = (table s).map (expectNVar s.pol s.guids) := rfl
-  rw [he, asmEntries_expect s.pol hp.pol s.guids rec (table s) hrows]
-  simp only [layout, expect_bufs, entriesLen_ser]
-  have h1 : ¬ ((expectStore s).length < 16 * (expectStore s).guidStore.length) := by
-    simp only [expectStore]; omega
-  have h1' : ¬ ((expectStore s).length - 16 * (expectStore s).guidStore.length < entriesLen s.entries) := by
-    simp only [expectStore]; omega
-  simp only [h1, h1', if_false]
-  have h2 : (expectStore s).length - 16 * (expectStore s).guidStore.length = entriesLen s.entries + s.free := by
-    simp only [expectStore]; omega
-  have h3 : entriesLen s.entries + s.free - entriesLen s.entries = s.free := by omega
-  simp only [h2, h3]
-  simp [expectStore, NvStore.ser]
+  rw [he, asmEntries_expect_gen s.pol hp.pol s.guids rec (table s) hrows hn]
+  simp only
+  rw [← he]
+  exact layout_expect s hp (expectStore s) rfl rfl
+
+/-- assembling the parsed form of a well-formed store (no nested stores) changes nothing -/
+theorem asmStoreWith_expect (s : NvStore) (hwf : WF s) (rec : Store → Except Err Store) :
+    asmStoreWith s.pol rec (expectStore s) = .ok (expectStore s) := by
+  apply asmStoreWith_expect_gen s (wf_parts s hwf) rec
+  intro r hr ns hns
+  have hpl := wf_plain s hwf r.entry (by rw [← table_entries s]; exact List.mem_map_of_mem hr)
+  rw [nestedOf_expect s.pol s.guids r hpl] at hns; cases hns
 
 theorem asmStore_expect (s : NvStore) (hwf : WF s) (d : Nat) :
     asmStore s.pol (d + 1) (expectStore s) = .ok (expectStore s) := by
